@@ -149,7 +149,7 @@ namespace glm
 	template<typename genType>
 	GLM_FUNC_QUALIFIER GLM_CONSTEXPR genType ln_ln_two()
 	{
-		return genType(-0.3665129205816643);
+		return genType(-0.3665129205816643270124391582326694694543);
 	}
 
 	template<typename genType>
